@@ -18,7 +18,7 @@ VERIF = os.path.dirname(os.path.dirname(os.path.abspath(__file__)))
 class Contract:
     def __init__(self, id, target, props, params=None, requires=(), ensures=(), raises=None, loops=None,
                  returns=None, modular=(), unroll=0, max_paths=3000, note='', setup=None, ghost=None,
-                 as_callee=False, allow_raise=(), known=None, max_recursion=1, decorators=(), regex_env=None, ghost_after=None, modifies=(), bounded=None):
+                 as_callee=False, allow_raise=(), known=None, max_recursion=1, decorators=(), regex_env=None, ghost_after=None, modifies=(), bounded=None, assumed=None):
         self.id = id
         self.target = target
         self.props = list(props)
@@ -41,6 +41,7 @@ class Contract:
         self.regex_env = regex_env or {}
         self.ghost_after = ghost_after or {}
         self.repair_strings = False
+        self.assumed = assumed     # text: an ASSUMED contract (used only at modular call sites, never verified, listed as assumption)
         self.bounded = bounded     # text: this contract is a BOUNDED stand-in (stated bound); never counted as proved
         self.modifies = list(modifies)     # parameters (lists) the function mutates in place: havocked at modular call sites   # statement-text pattern -> ghost code run after matching statements
 
